@@ -22,6 +22,13 @@ pub fn template_total(args: &[String]) -> String {
             return format!("{{\"found\": true, \"clause\": \"C10-total with_template panicked\", \"input\": {{\"template\": {}, \"panic\": {}}}, \"rerun\": \"replay template_total {}\"}}", crate::js(t), crate::js(&p), t);
         }
     }
+    // a width that does not fit the width type is reported as an error, not accepted as some other width
+    for t in ["{bar:65536}", "{bar:70000}", "{a:4294967295}", "{a:4294967296}", "{a:4294967306}", "{a:18446744073709551616}", "{a:99999999999999999999}", "{a:>65536!.red/blue}"] {
+        let r = catch_unwind(AssertUnwindSafe(|| ProgressStyle::with_template(t).is_ok()));
+        if let Ok(true) = r {
+            return format!("{{\"found\": true, \"clause\": \"C10 an out-of-range placeholder width is a TemplateError (neither a panic nor another width)\", \"input\": {{\"template\": {}}}, \"rerun\": \"replay template_total {}\"}}", crate::js(t), t);
+        }
+    }
     // small-scope enumeration over the grammar's alphabet
     let alpha: Vec<char> = "{}: a9!./\n<".chars().collect();
     let mut tried = 0u64;
